@@ -70,7 +70,7 @@ ASSUMPTIONS = [
 ]
 CASE_TIMEOUT_S = 600
 SHARD_TIMEOUT_S = {"quick": 2400, "thorough": 8 * 3600}
-STEP_BUDGET = 2_000_000_000
+STEP_BUDGET = 1_000_000_000
 
 _CHUNK = {5: 40, 6: 12, 7: 24}
 
